@@ -120,6 +120,14 @@ func runC13(c *Ctx) {
 			for _, i := range permute(c.Rng, len(data)) {
 				gc.Data[data[i].k] = data[i].v
 			}
+			// ordered lists that were filled directly (not through Add) and hold an entry twice, in one fixed order: the
+			// order of a list is content and encoding must keep it, repeated entries included
+			if n%2 == 0 {
+				ac.Tags = jwt.TagList{"alpha", "beta", "gamma", "alpha", "delta", "epsilon", "beta"}
+				ac.DefaultPermissions.Pub.Allow = jwt.StringList{"p.x", "p.y", "p.x", "p.z", "p.y"}
+				ac.DefaultPermissions.Sub.Deny = jwt.StringList{"s.1", "s.1", "s.2", "s.3"}
+				ac.Authorization.AuthUsers = jwt.StringList{kr.by["user"].pub, kr.by["user"].pub}
+			}
 			// how the object came to its content is not content: some builds have been encoded before (same key, same
 			// second, or another key) with OTHER standard fields and carry the stamps of that encoding
 			for _, cd := range []*jwt.ClaimsData{&ac.ClaimsData, &gc.ClaimsData} {
@@ -344,10 +352,11 @@ func runC14(c *Ctx) {
 			for ur, user := range roleKeys {
 				reps := 1
 				if sr == "account" && ar == "account" && ur == "user" {
-					reps = 40
+					reps = 80
 				}
 				for rep := 0; rep < reps; rep++ {
-					name := []string{"", "the name", "x"}[c.Rng.Intn(3)]
+					// (a name is taken as given whenever one is given: blank-only, padded, control and non-ASCII names too)
+					name := []string{"", "the name", "x", " ", "\t", "  \n ", "\u00a0", " padded ", "\x00", "名前", strings.Repeat("n", 300), "\u0085"}[c.Rng.Intn(12)]
 					d := durs[c.Rng.Intn(len(durs))]
 					var tags []string
 					switch c.Rng.Intn(3) {
